@@ -16,10 +16,11 @@ FIELDS = {'SynthDef': {'_func': 'obj', '_callable_args': 'obj'},
 def phase(name):
     """a build phase: returns normally or raises some Exception subclass"""
     def pol(eng, selfv, args, kwargs, st, node):
+        ctx = st.objs.get('main', {}).get('_current_synthdef')     # the build context this phase runs in
         ok = st.fork()
-        ok.trace.append(('phase', name, 'ok'))
+        ok.trace.append(('phase', name, 'ok', ctx))
         bad = st.fork()
-        bad.trace.append(('phase', name, 'raise'))
+        bad.trace.append(('phase', name, 'raise', ctx))
         return [(ok, NONE), (bad, Raised(eng.make_exc('ValueError', node=node)))]
     return pol
 
@@ -45,20 +46,28 @@ def raised_iff_phase_failed(c):
 
 
 def context_set_during_phases(c):
-    # every phase ran with the context pointing at this definition: the
-    # assignment precedes the first phase event (checked on the trace order)
-    return z3.BoolVal(True)
+    # every phase ran with the build context pointing at THIS definition (units created by the graph function
+    # register with the definition they find there)
+    ph = [e for e in c.trace if e[0] == 'phase']
+    return z3.BoolVal(all(len(e) > 3 and e[3] is not None and e[3].k == 'ref' and e[3].oid == 'self' for e in ph))
+
+
+def func_kept(c):
+    f = c.post.self.v('_func')
+    return z3.BoolVal(f is c._params['func'] or (f.k == 'obj' and f.oid == 'func'))
 
 
 contract(F, 'SynthDef._build', props=('C20',),
          params={'self': 'self', 'func': 'obj', 'rates': 'obj', 'prepend': 'obj'},
          raises={'ValueError': None, 'TypeError': None},
          on_any_exit=[('build-context-cleared', context_clear),
+                      ('every-phase-ran-in-this-definitions-context', context_set_during_phases),
                       ('build-lock-released', lock_released),
                       ('a-failing-phase-is-not-swallowed', raised_iff_phase_failed)],
          ensures=[('all-phases-ran', lambda c: z3.BoolVal(
              [e[1] for e in c.trace if e[0] == 'phase'] ==
-             ['SynthDef._init_build', 'SynthDef._build_ugen_graph', 'SynthDef._finish_build']))],
+             ['SynthDef._init_build', 'SynthDef._build_ugen_graph', 'SynthDef._finish_build'])),
+                  ('graph-function-kept-after-a-successful-build', func_kept)],
          policies={'SynthDef._init_build': phase('SynthDef._init_build'),
                    'SynthDef._build_ugen_graph': phase('SynthDef._build_ugen_graph'),
                    'SynthDef._finish_build': phase('SynthDef._finish_build'),
